@@ -3,6 +3,7 @@ package vc
 import (
 	"fmt"
 	"go/ast"
+	"go/constant"
 	"go/token"
 	"go/types"
 	"strings"
@@ -653,6 +654,12 @@ func (f *frame) execBinOp(in *ssa.BinOp, st *State) {
 		f.def(in, fmt.Sprintf("(* %s %s)", x.T, y.T), st)
 	case token.QUO:
 		if isReal(xt) {
+			// float64 is modelled as exact reals without Inf/NaN: x/0 (Inf or NaN in Go, an unspecified value in
+			// SMT-LIB) leaves the model, so a division whose divisor is not a non-zero constant must be shown
+			// not to divide by zero.
+			if k, ok := in.Y.(*ssa.Const); !ok || k.Value == nil || constant.Sign(k.Value) == 0 {
+				c.oblige(st, f.path, "safety:div0", fmt.Sprintf("(not (= %s 0.0))", y.T), "float64 division by zero (Inf/NaN is outside the exact-real model)", in.Pos())
+			}
 			f.def(in, fmt.Sprintf("(/ %s %s)", x.T, y.T), st)
 			return
 		}
